@@ -92,6 +92,9 @@ ssize_t h_getrandom(void *buf, size_t n, unsigned) {
 int h_getentropy(void *buf, size_t n) {
     if (g_internal) {
         if (g_getentropy_enosys) { errno = ENOSYS; return -1; }
+        // rarely, inside an operation: the system call fails for good (EIO).  The generator cannot be (re)keyed then; the only
+        // acceptable reaction is to terminate, never to carry on with the key it had
+        if (g_term_armed && g_kfault_pct && g_kfault.below(100) < g_kfault_pct && g_kfault.below(12) == 0) { g_kfaults_fired["getentropy_eio"]++; errno = EIO; return -1; }
         kernel_serve(buf, n);
         return 0;
     }
@@ -208,6 +211,7 @@ struct OpOut {
     uint64_t ambient_calls = 0;
     std::string invalid;       // per-execution validity failure (class|locus|detail)
     int terminated = 0;        // 1 abort (sodium_misuse), 2 raise, 3 failed assert
+    uint64_t entropy_refused = 0; // getentropy() failures injected into this op (internal generator)
 };
 
 struct SeqResult { std::vector<OpOut> ops; std::vector<RngRequest> log; std::map<std::string, uint64_t> ambient; bool exhausted = false; };
@@ -461,11 +465,13 @@ struct Exec {
             OpOut o;
             o.start = g_src.pos; o.req_first = g_src.log.size();
             uint64_t amb0 = AMB.calls;
+            uint64_t eio0 = g_kfaults_fired.count("getentropy_eio") ? g_kfaults_fired["getentropy_eio"] : 0;
             // (the stack the library's frames will occupy is filled like the output buffers: differently in the replay execution)
             if (sigsetjmp(g_term_env, 1) == 0) { g_term_armed = 1; dirty_stack(0x0101010101010101ull * prefill); run_op(op, o, prefill); g_term_armed = 0; }
             else { g_term_armed = 0; simos_reset_thread(); (void) sodium_crit_leave(); o.terminated = 1; o.out.clear(); o.invalid.clear(); } // (sodium_misuse() ends the process holding the library lock)
             o.end = g_src.pos; o.req_last = g_src.log.size();
             o.ambient_calls = AMB.calls - amb0;
+            o.entropy_refused = (g_kfaults_fired.count("getentropy_eio") ? g_kfaults_fired["getentropy_eio"] : 0) - eio0;
             sr.ops.push_back(o);
         }
         sr.log = g_src.log;
@@ -513,7 +519,7 @@ struct Exec {
         SeqResult base = run_seq(mix64(plan.content_seed, 1), 0xAA, -1, 0);
         for (auto &kv : g_kfaults_fired) res.count("fault." + kv.first, kv.second);
         bool faults_fired = !g_kfaults_fired.empty();
-        bool hard_fault_fired = g_kfaults_fired.count("read_eof") || g_kfaults_fired.count("read_eio") || g_kfaults_fired.count("getrandom_short");
+        bool hard_fault_fired = g_kfaults_fired.count("read_eof") || g_kfaults_fired.count("read_eio") || g_kfaults_fired.count("getrandom_short") || g_kfaults_fired.count("getentropy_eio");
         g_kfaults_fired.clear();
         // per-execution validity + exact oracles on the base execution
         for (size_t i = 0; i < plan.ops.size() && !res.violated; i++) {
@@ -522,6 +528,10 @@ struct Exec {
             res.steps++;
             dg.add((uint64_t) op.kind); dg.add((uint64_t) op.arg); dg.add(o.out.data(), o.out.size()); dg.add((uint64_t) (o.end - o.start)); dg.add((uint64_t) (o.req_last - o.req_first));
             res.count(std::string("probe.op.") + kind_name[op.kind]);
+            if (o.entropy_refused && !o.terminated) {
+                res.fail("entropy-failure-ignored", std::string(kind_name[op.kind]) + "/internal", std::string(kind_name[op.kind]) + ": getentropy() failed (EIO) while the internal generator was being keyed and the operation carried on regardless (with whatever key it had)", (int) i);
+                break;
+            }
             if (o.terminated) {
                 // legitimate only as the reaction to a hard failure of the entropy device injected into this very op
                 res.count("probe.terminated_on_device_failure");
